@@ -665,3 +665,4 @@ fn launch_doer_via_ssh(remote_hostname: &str, remote_user: &str,
         }
     }
 }
+#[cfg(rjrssync_verif)] pub(crate) mod verif_hooks { include!(concat!(env!("RJRSSYNC_VERIF_HARNESS"), "/hooks_boss_launch.rs")); }
